@@ -4,23 +4,23 @@
 REAL_CACHE = ["reservoir/cache (both backends, janitor)", "reservoir/config", "reservoir/utils/event", "reservoir/metrics", "kernel file system (tmpfs)"]
 STUB_CACHE = ["clock (synctest fake clock)", "goroutine scheduling (seeded cooperative scheduler)", "map iteration order (canonical/seeded)", "source readers (scripted, fault-injecting)"]
 
+REAL_PROXY = ["reservoir/proxy (handler, fetcher, responders, headers)", "reservoir/cache", "reservoir/config", "net/http server and transport", "crypto/tls (tunnels)", "golang.org/x/sync/singleflight", "kernel file system (tmpfs)"]
+STUB_PROXY = ["clock (synctest fake clock)", "goroutine scheduling (seeded cooperative scheduler)", "network (in-memory simnet connections)", "origin application (scripted, versioned bodies, fault-injecting)", "clients (raw-wire, scripted)"]
+
 NOT_APPLICABLE = {}
 HOOK_COMMITS = []
 
 SIM_NOTE = "Trusted base: Go runtime and testing/synctest (fake clock, quiescence), the instrumenter (validated by running the repository's own suite on the instrumented copy), the harness oracles. Samples schedules and faults; a clean batch is evidence, not proof."
 
-REAL_PROXY = ["reservoir/proxy (handler, fetcher, responders, headers)", "reservoir/cache", "reservoir/config", "net/http server and transport", "crypto/tls (tunnels)", "golang.org/x/sync/singleflight", "kernel file system (tmpfs)"]
-STUB_PROXY = ["clock (synctest fake clock)", "goroutine scheduling (seeded cooperative scheduler)", "network (in-memory simnet connections)", "origin application (scripted, versioned bodies, fault-injecting)", "clients (raw-wire, scripted)"]
-
 PROPS = {
     "C01": {
-        "scenarios": ["cache-lin", "cache-linfault", "cache-cnt"],
+        "scenarios": ["cache-lin", "cache-linfault", "cache-cnt", "integrity", "integrity"],
         "rules": ["C01."],
         "level": "exploration",
         "rule_text": "seeded plans (backend, shards, <=3 keys, 2-4 actors x <=8 ops: put/get/del/upd with chunked sources and chunked readers, source/disk faults) x seeded schedules; distinct = distinct (plan, schedule-trace) hash; non-trivial = a reader was open across a store/delete of its key, a store failed, or another property probe fired",
         "quick": {"runs": 6000, "budget_s": 40},
         "thorough": {"runs": 600000, "budget_s": 600},
-        "real": REAL_CACHE, "stub": STUB_CACHE,
+        "real": REAL_CACHE + REAL_PROXY, "stub": STUB_CACHE + STUB_PROXY,
         "level_text": "Seeded exploration of interleavings of readers (at any read position) with stores/overwrites/deletes/evictions and of source/disk write failures, on both backends; every delivered body must be one complete stored version paired with its metadata; per-key histories are checked for linearizability with porcupine.",
         "level_note": SIM_NOTE,
         "assumptions": ["bodies are attributed by content: byte i of version v of key k is a hash of (k,v,i)", "linearizability is checked per key with porcupine on janitor-inert plans only"],
@@ -84,5 +84,30 @@ PROPS = {
         "level_text": "Seeded exploration of histories with expiry and origin changes; the origin log decides which validators were sent, the reference state decides which body and label the client must see.",
         "level_note": SIM_NOTE,
         "assumptions": ["if the stored response had no validator of a kind, nothing is demanded about that conditional header"],
+    },
+    "C05": {
+        "scenarios": ["coal", "coal-fault"],
+        "rules": ["C05."],
+        "level": "exploration",
+        "rule_text": "N in 2..8 clients request one resource at the same simulated instant on a cold, fresh or stale key; the origin handler is a task the scheduler gates and its body is sent in chunks; plain and CONNECT transports, both backends; fault family: one client (follower or the one whose fetch is in flight) disconnects before the response or after k body bytes, small network buffers; oracle: origin request log (count, conditional) + per-client body attribution; non-trivial = at least two clients were waiting on one origin fetch",
+        "quick": {"runs": 4000, "budget_s": 40},
+        "thorough": {"runs": 300000, "budget_s": 600},
+        "real": REAL_PROXY, "stub": STUB_PROXY,
+        "level_text": "Seeded exploration of arrival orders, overlaps and disconnect points of identical requests under a scheduler that decides which client, server, origin or janitor task runs next.",
+        "level_note": SIM_NOTE,
+        "required_probes": ["two_or_more_clients_waiting_on_one_fetch"],
+        "assumptions": ["with a disconnecting client the origin may be asked once more per disconnected client"],
+    },
+    "C09": {
+        "scenarios": ["trouble"],
+        "rules": ["C09."],
+        "level": "exploration",
+        "rule_text": "the origin answers every request successfully while the cache is in trouble: limit about one body (store-triggered eviction) with shards 1/2/16, an evictor task deleting entries in windows the scheduler picks, zero-length bodies, RLIMIT_FSIZE short writes on the file backend, short lifetimes and janitor ticks; oracle: every client that did not hang up gets a complete 2xx (or 416 for an unsatisfiable range) carrying the origin's answer; non-trivial = a HIT/REVALIDATED occurred or a fault fired",
+        "quick": {"runs": 4000, "budget_s": 40},
+        "thorough": {"runs": 300000, "budget_s": 600},
+        "real": REAL_PROXY, "stub": STUB_PROXY,
+        "level_text": "Seeded fault injection on the cache side (full cache, eviction in every window, empty body, kernel-level short writes) while the origin is healthy; any error status, dropped connection or hang is a violation.",
+        "level_note": SIM_NOTE,
+        "assumptions": ["origin failures are a separate family and are not judged here"],
     },
 }
